@@ -41,6 +41,24 @@ def run(tier, seed, replay=None):
         parts, n = core.split_file(cases, N)
         r.gen_validate("mc-strings", ["hser", "--mode", "roundtrip", "--replay"], SPEC, CFG, len(parts), classify, core.count_lines,
                        stdin_files=parts, timeout=5000)
+    # design-level round trip on trees: Parse_L0(Serialize_L0(t)) = t for every small tree (MC_HtmlRoundTrip, both scripting
+    # settings); each explored tree then goes through the real serializer and the real fragment parser
+    allt = os.path.join(WORK, "traces", "C07-roundtrip-trees.ndjson")
+
+    def rt(name):
+        out = os.path.join(WORK, "traces", "C07-%s-cases.ndjson" % name)
+        return name, out, core.tlc_mc("C07-" + name, "MC_HtmlRoundTrip.tla", name + ("" if q else "_thorough") + ".cfg", workers=8,
+                                      replay_out=out, timeout=6000, xmx="12g")
+    with open(allt, "w") as w:
+        for (name, out, res2) in core.parallel([(rt, (n,), {}) for n in ("MC_HtmlRoundTrip", "MC_HtmlRoundTrip_noscripting")], max_workers=2):
+            r.add_mc(name, res2)
+            if res2["ok"]:
+                with open(out) as f:
+                    w.write(f.read())
+    parts, ntrees = core.split_file(allt, N)
+    r.gen_validate("mc-trees", ["hser", "--mode", "roundtrip", "--replay"], SPEC, CFG, len(parts), classify, core.count_lines,
+                   stdin_files=parts, timeout=5000)
+    r.extra["mc_trees_replayed"] = ntrees
     r.gen_validate("random-trees", ["hser", "--mode", "roundtrip", "--n", 1500 if q else 20000], SPEC, CFG, N, classify, core.count_lines, timeout=5000)
     r.gen_validate("inner-outer", ["hser", "--mode", "inner", "--n", 150 if q else 3000], SPEC, CFG, N, classify, core.count_lines, timeout=5000)
     r.assumptions = ["ordinary elements: div span b i em strong section blockquote u code (no void, raw-text or implied-end-tag elements)",
